@@ -5,8 +5,8 @@ import vlib
 import gen
 from vlib import g_str, g_list
 
-GEN = ['grammar', 'elements', 'schemes']
-COQ_DEPS = ['Graph/Scheme_proofs.vo', 'Lib/DataDir.vo']
+GEN = ['grammar', 'elements', 'schemes', 'uq']
+COQ_DEPS = ['Graph/Scheme_proofs.vo', 'Lib/DataDir.vo', 'Lib/Psd_cert.vo']
 
 HEADER = '''From Coq Require Import List NArith Bool.
 From PG Require Import Common.Strs Lib.DataDir.
@@ -26,7 +26,10 @@ def run(ctx):
         'theorems on the data-directory cache and the name-or-path decision (Lib/DataDir.v); tie for the cache = correspondence of call histories',
         'the three-way load (by name, by explicit path, from a relocated copy selected by pgradd_DATA_DIR), the evaluation of every group and the '
         'uncertainty-block checks are exhaustive runs on the implementation (the file system and YAML layer are runtime)',
-        'positive semi-definiteness is checked numerically (symmetric eigenvalue solver, tolerance 1e-9): the checked-certificate theorem of DESIGN 5/C14 is not built']
+        'uncertainty matrices: regenerated from the data files as exact integer matrices (tools/gen.py uq; tie: entry-for-entry equality with the matrix '
+        'the loaded library object holds); square, symmetric and positive semi-definite by the kernel-checked certificate of Lib/Psd.v '
+        '(C14_uq_certificates, C14_uq_psd; the Cholesky-type factor is untrusted input); a numerical eigenvalue check (1e-9) still runs on the '
+        'implementation and supplies the failing direction when the certificate no longer checks']
     reloc = os.path.join(vlib.WORK, 'c14_relocated_data')
     if os.path.exists(reloc):
         shutil.rmtree(reloc)
@@ -74,6 +77,12 @@ def run(ctx):
             ctx.violate('override:%s' % lib, 'the data-directory override was not honoured', {'lib': lib}, reloc, fps[2][3])
         ctx.sample({'lib': lib, 'fingerprints': [f[:3] for f in fps]}, limit=3)
     # audit
+    import gen as _gen
+    try:
+        uqgen = _gen.GENERATORS['uq']()
+    except Exception as e:
+        uqgen = {}
+        ctx.broken.append('translator uq failed: %r' % (e,))
     res = vlib.run_impl_sharded('libs', [{'op': 'audit', 'spec': lib} for lib in gen.SHIPPED], timeout=1800)
     for lib, r in zip(gen.SHIPPED, res):
         if 'n_eval' not in r:
@@ -89,9 +98,23 @@ def run(ctx):
         if r['remap_chains'] or r['remap_bad']:
             ctx.violate('remaps:%s' % lib, 'remap rules of %s are chained or malformed' % lib, {'lib': lib}, 'chain-free', [r['remap_chains'], r['remap_bad']])
         uq = r.get('uq')
+        if bool(uq) != (lib in uqgen):
+            ctx.violate('uq-translation:%s' % lib, 'the translator and the loaded library disagree on whether %s has uncertainty data' % lib,
+                        {'lib': lib}, lib in uqgen, bool(uq))
         if uq:
             hist['uq_blocks'] += 1
             probs = []
+            # tie of Gen/UqMats.v: integer / 2^scale is, entry for entry, the double the library object holds
+            from fractions import Fraction
+            g = uqgen.get(lib)
+            if g and uq.get('mat_hex') is not None:
+                same = len(g['M']) == len(uq['mat_hex']) and all(
+                    len(a) == len(b) and all(Fraction(x, 2 ** g['s']) == Fraction(float.fromhex(y)) for x, y in zip(a, b))
+                    for a, b in zip(g['M'], uq['mat_hex']))
+                hist['uq_entries_tied'] = hist.get('uq_entries_tied', 0) + sum(len(a) for a in g['M'])
+                if not same:
+                    ctx.violate('uq-translation:%s' % lib, 'the regenerated integer matrix of %s is not the matrix the library object holds' % lib,
+                                {'lib': lib}, 'identical entries', 'differs')
             if uq['shape'] != [uq['n'], uq['n']]:
                 probs.append('matrix %r not sized to the basis of %d' % (uq['shape'], uq['n']))
             if not uq['symmetric']:
